@@ -94,6 +94,17 @@ def main():
             "tensordot(b=x*c) in grad": (lambda x: grad(lambda y: anp.tensordot(xs3 * y, b=x * xs3, axes=1) * y)(y0), lambda x, y: 2.0 * y * 14.0),
             "where(c, x=.., y=x*x) in grad": (lambda x: grad(lambda y: anp.sum(anp.where(xs3 > 1.5, xs3 * y, x * x) * y))(y0), lambda x, y: 2.0 * x),
         }
+        # a checkpointed function inside the inner differentiation, one of its arguments boxed by the OUTER level
+        # (raise-or-right: checkpoint has no forward rule; a silently dropped outer dependence is not allowed)
+        from autograd import checkpoint as _ckpt
+        cf = _ckpt(f)
+        kwcases.update({
+            "checkpoint(f)(x, y) in grad": (lambda x: grad(lambda y: cf(x, y))(y0), dxdy),
+            "checkpoint(f) with argnum=1": (lambda x: grad(cf, 1)(x, y0), dxdy),
+            "checkpoint(f)(x, y) in make_vjp": (lambda x: make_vjp(lambda y: cf(x, y))(y0)[0](1.0), dxdy),
+            "checkpoint(f)(x, y) value in value_and_grad": (lambda x: value_and_grad(lambda y: cf(x, y))(y0)[0], dx),
+            "checkpoint(f)(x*x, y) in grad": (lambda x: grad(lambda y: cf(x * x, y))(y0), lambda x, y: 2.0 * x * dxdy(x * x, y)),
+        })
         for kname, (hk, dk) in kwcases.items():
             for oname, op in outers.items():
                 out["n"] += 1
